@@ -15,6 +15,7 @@
 //	div     integer division or remainder by a non-literal, and big.Int Div/Quo/Mod/Rem/DivMod/QuoRem
 //	make    make(T, n) with a non-literal size
 //	nilptr  use of a `var x *big.Int` declared without a value (nil until a branch assigns it)
+//
 // It also emits the case lists of the transaction-type switches of Tx.Validate and executeTx.
 //
 // Identical triples within one function are merged into one entry with their count.
@@ -81,8 +82,8 @@ func main() {
 	}
 	repo, out := os.Args[1], os.Args[2]
 	fset := token.NewFileSet()
-	funcs := map[string]*fn{}          // full name -> decl
-	byBare := map[string][]string{}    // pkg + "." + bare function/method name -> full names
+	funcs := map[string]*fn{}       // full name -> decl
+	byBare := map[string][]string{} // pkg + "." + bare function/method name -> full names
 	for pkg, dir := range pkgDir {
 		list := pkgFiles[dir]
 		if list == nil {
@@ -318,6 +319,48 @@ func scan(fset *token.FileSet, fn string, body *ast.BlockStmt) []site {
 			return true
 		})
 	}
+	// "nilfield": a selection through a field of a struct (x.f.g, x.f.m()) inside logging code -- the body of an
+	// `if l.IsDebugEnabled()` / IsTraceEnabled / ... and the arguments of a zerolog-style chain l.Debug()...Msg().
+	// Such code runs only on a node configured with that log level; x.f may be a nil pointer there
+	// (voteCmd.Proposal is nil for BP votes).  No type information: every such selection is a site.
+	seenNF := map[ast.Node]bool{}
+	nilfields := func(n ast.Node) {
+		ast.Inspect(n, func(y ast.Node) bool {
+			se, ok := y.(*ast.SelectorExpr)
+			if !ok || seenNF[se] {
+				return true
+			}
+			if inner, ok := se.X.(*ast.SelectorExpr); ok {
+				if _, isId := inner.X.(*ast.Ident); isId || isSelChain(inner.X) {
+					seenNF[se] = true
+					res = append(res, site{fn, "nilfield", text(fset, se)})
+				}
+			}
+			return true
+		})
+	}
+	ast.Inspect(body, func(n ast.Node) bool {
+		switch x := n.(type) {
+		case *ast.IfStmt:
+			if logLevelTest(x.Cond) {
+				nilfields(x.Body)
+			}
+		case *ast.CallExpr:
+			if isLogChain(x) {
+				for c := x; c != nil; {
+					for _, a := range c.Args {
+						nilfields(a)
+					}
+					se, ok := c.Fun.(*ast.SelectorExpr)
+					if !ok {
+						break
+					}
+					c, _ = se.X.(*ast.CallExpr)
+				}
+			}
+		}
+		return true
+	})
 	commaOK := map[*ast.TypeAssertExpr]bool{}
 	ast.Inspect(body, func(n ast.Node) bool {
 		switch x := n.(type) {
@@ -391,6 +434,48 @@ func scan(fset *token.FileSet, fn string, body *ast.BlockStmt) []site {
 		return true
 	})
 	return res
+}
+
+var logLevels = map[string]bool{"Trace": true, "Debug": true, "Info": true, "Warn": true, "Error": true, "Fatal": true, "Panic": true}
+
+func isSelChain(e ast.Expr) bool {
+	se, ok := e.(*ast.SelectorExpr)
+	if !ok {
+		return false
+	}
+	if _, isId := se.X.(*ast.Ident); isId {
+		return true
+	}
+	return isSelChain(se.X)
+}
+
+// l.IsDebugEnabled() and the like, possibly inside && / ||
+func logLevelTest(e ast.Expr) bool {
+	found := false
+	ast.Inspect(e, func(n ast.Node) bool {
+		if c, ok := n.(*ast.CallExpr); ok {
+			if se, ok := c.Fun.(*ast.SelectorExpr); ok && strings.HasPrefix(se.Sel.Name, "Is") && strings.HasSuffix(se.Sel.Name, "Enabled") {
+				found = true
+			}
+		}
+		return !found
+	})
+	return found
+}
+
+// a call whose receiver chain starts with l.Debug() / l.Info() / ... (no arguments): a zerolog-style event
+func isLogChain(c *ast.CallExpr) bool {
+	for c != nil {
+		se, ok := c.Fun.(*ast.SelectorExpr)
+		if !ok {
+			return false
+		}
+		if logLevels[se.Sel.Name] && len(c.Args) == 0 {
+			return true
+		}
+		c, _ = se.X.(*ast.CallExpr)
+	}
+	return false
 }
 
 // identifiers that look like constants (CamelCase package constants such as bucketsMax are not: conservative)
